@@ -29,9 +29,8 @@ class get_tag_raw:
     ghost = {"$o": "self._offset + n * self._tagsize"}
     ensures = ["result == P('Elf_Dyn', self._stream.B, $o)"]
     raises = {"IndexError": "self._num_tags != -1 and n >= self._num_tags",
-              "ELFParseError": "not (self._num_tags != -1 and n >= self._num_tags) and $o < 2**63 and"
-                               " $o + self._tagsize > len(self._stream.B)",
-              "OverflowError": "not (self._num_tags != -1 and n >= self._num_tags) and $o >= 2**63"}
+              "ELFParseError": "not (self._num_tags != -1 and n >= self._num_tags) and"
+                               " $o + self._tagsize > len(self._stream.B)"}
 
 
 @contract("elftools/elf/dynamic.py", "Dynamic._iter_tags", props=["C09", "C19"])
@@ -127,7 +126,7 @@ class get_tag:
     ghost = {"$o": "self._offset + n * self._tagsize"}
     ensures = ["result.entry == dyn(self, n)"]
     raises = {"IndexError": "self._num_tags != -1 and n >= self._num_tags",
-              "ELFParseError": "not (self._num_tags != -1 and n >= self._num_tags) and $o < 2**63 and"
+              "ELFParseError": "not (self._num_tags != -1 and n >= self._num_tags) and"
                                " $o + self._tagsize > len(self._stream.B)"}
     may_raise = ["OverflowError", "UnicodeDecodeError", "ELFError"]
 
